@@ -44,8 +44,13 @@ claim("C07",
       "A reclaim scenario is accepted only if each victim chunk fits a strategy evaluated on the remaining share of the queue at the divergence level (initialised once, reduced for every ancestor) and the boundary walk holds; MaintainFairShare / GuaranteeDeservedQuota carry their defining facts; CanReclaimResources (fair share, deserved quota for non-preemptible, request added first) dominates every reclaim attempt and is repeated at every ancestor; the saturation test refuses on ratio>1 ∧ siblingFair>0 ∧ ratio·m ≥ sibling (equality refuses) with m clamped to ≥1 and NaN excluded; the per-attempt snapshot is rebuilt on every attempt from clones that copy every field. Numeric truth of the shares is not decided.",
       NOTE)
 
+claim("C10",
+      "hierarchy-walk detection over SSA loops (element re-bound through m[q.ParentQueue]) with a boundedness test, sanitiser shape and ordering (must-pass-through), who-may-fill tables for the walked queue maps and child links, nil-map-dereference analysis with phi-correlated ok flags and a reviewed invariant table, argument shape of pod-set minimums",
+      "Every ParentQueue walk in the scheduler is bounded or runs on a queue map filled only from the snapshot, which removes parent cycles (bounded walk + delete, before linking children and cleaning orphans) before publishing; ChildQueues recursion follows links written only by the sanitiser; every unguarded dereference of a queue looked up by id is covered by a reviewed invariant (a new one is reported); pod-set minimums taken from the API are forced to ≥ 1; a task naming an unknown sub-group is dropped rather than filed elsewhere; a rejected sub-group graph leaves the default pod set. General panic freedom and liveness are not decided.",
+      NOTE)
+
 NA = {
     "C15": "quantifies over infinite executions of a closed system (lasso freedom); no static shape of the code settles it. Its three guards (strict saturation comparison with multiplier >= 1, strictly-lower priority for preempt, consolidation only when all victims are re-placed) are decided as clauses of C07 and C06.",
 }
-for _p in ["C04","C05","C09","C10","C11","C12","C16","C17","C18","C19","C20"]:
+for _p in ["C04","C05","C09","C11","C12","C16","C17","C18","C19","C20"]:
     NA.setdefault(_p, "check under construction in this session (see DESIGN.md §4 for the planned static obligations); not claimed until the check exists")
